@@ -122,6 +122,8 @@ func buildAtomTable() []AtomRow {
 		AtomRow{Kind: "in", Arg: YSeq(YStr("100%"), YStr("50%")), Sat: strs("100%", "50%"), Viol: strs("100", "%", "50%%"), Class: "value"},
 		AtomRow{Kind: "pattern", Arg: YStr("^[0-9]+%$"), Sat: strs("5%", "100%"), Viol: strs("5", "%5", "5%%x"), Class: "value"},
 		AtomRow{Kind: "containsSome", Arg: YSeq(YStr("a"), YStr("%s")), Set: []string{"a", "%s"}, Class: "set"},
+		AtomRow{Kind: "containsAll", Arg: YSeq(YStr("100%"), YStr("a")), Set: []string{"100%", "a"}, Class: "set"},
+		AtomRow{Kind: "containsSome", Arg: YSeq(YStr("b"), YStr("100%")), Set: []string{"b", "100%"}, Class: "set"},
 	)
 	return t
 }
@@ -162,7 +164,7 @@ func (a *Atom) NeedsSingle() bool {
 }
 
 // SetPool is the pool of values a set-kind atom's property draws from.
-var SetPool = []Lit{S("a"), S("b"), S("c"), S("d"), I(1), I(7), S("")}
+var SetPool = []Lit{S("a"), S("b"), S("c"), S("d"), I(1), I(7), S(""), S("100%")}
 
 // CmpPool is the pool for comparison atoms.
 var CmpPool = []Lit{I(1), I(2), I(3)}
